@@ -25,6 +25,9 @@ def agg_yield_groups_decorators : List String := []
 /-- the signature of dataiter/aggregate.py: yield_groups: parameters in order, with the source text of their defaults -/
 def agg_yield_groups_signature : List String := ["x", "group", "drop_na"]
 
+/-- the calls of dataiter/aggregate.py: yield_groups in the order Python makes them along the source text -/
+def agg_yield_groups_call_order : List String := ["len", "range", "xij.is_na"]
+
 /-- dataiter/aggregate.py: handle_na (sha256 of the function source: b5a121b73e5dfc67) -/
 def agg_handle_na (truth : Term → Bool) : Out :=
   Out.ret [] (if truth (Term.sym "drop_na") then (Term.app "getitem" [(Term.sym "x"), (Term.app "~" [(Term.app ".is_na" [(Term.sym "x")])])]) else (Term.sym "x"))
@@ -34,6 +37,9 @@ def agg_handle_na_decorators : List String := []
 
 /-- the signature of dataiter/aggregate.py: handle_na: parameters in order, with the source text of their defaults -/
 def agg_handle_na_signature : List String := ["x", "drop_na"]
+
+/-- the calls of dataiter/aggregate.py: handle_na in the order Python makes them along the source text -/
+def agg_handle_na_call_order : List String := ["x.is_na"]
 
 /-- dataiter/aggregate.py: generic (sha256 of the function source: 4b30718266dcdd31) -/
 def agg_generic (truth : Term → Bool) : Out :=
@@ -46,6 +52,9 @@ def agg_generic_decorators : List String := ["functools.lru_cache(256)"]
 /-- the signature of dataiter/aggregate.py: generic: parameters in order, with the source text of their defaults -/
 def agg_generic_signature : List String := ["function", "**kwargs"]
 
+/-- the calls of dataiter/aggregate.py: generic in the order Python makes them along the source text -/
+def agg_generic_call_order : List String := []
+
 /-- dataiter/aggregate.py: nth_apply (sha256 of the function source: 89d9df6c78d5dcce) -/
 def agg_nth_apply (truth : Term → Bool) : Out :=
   let eff0 : Term := (Term.app "for" [(Term.sym "xg"), (Term.app "yield_groups" [(Term.sym "x"), (Term.sym "group"), (Term.sym "drop_na")]), (Term.app "block" [(Term.app "try" [(Term.app "block" [(Term.app "yield" [(Term.app "getitem" [(Term.sym "xg"), (Term.sym "index")])])]), (Term.app "except" [(Term.sym "IndexError"), (Term.app "block" [(Term.app "yield" [(Term.sym "None")])])]), (Term.app "else" [(Term.app "block" [])]), (Term.app "finally" [(Term.app "block" [])])])])]);
@@ -56,6 +65,9 @@ def agg_nth_apply_decorators : List String := ["deco.listify"]
 
 /-- the signature of dataiter/aggregate.py: nth_apply: parameters in order, with the source text of their defaults -/
 def agg_nth_apply_signature : List String := ["x", "group", "index", "drop_na"]
+
+/-- the calls of dataiter/aggregate.py: nth_apply in the order Python makes them along the source text -/
+def agg_nth_apply_call_order : List String := ["yield_groups"]
 
 /-- dataiter/aggregate.py: mode_apply (sha256 of the function source: 28de28a60ad4a017) -/
 def agg_mode_apply (truth : Term → Bool) : Out :=
@@ -68,6 +80,9 @@ def agg_mode_apply_decorators : List String := ["deco.listify"]
 /-- the signature of dataiter/aggregate.py: mode_apply: parameters in order, with the source text of their defaults -/
 def agg_mode_apply_signature : List String := ["x", "group", "drop_na"]
 
+/-- the calls of dataiter/aggregate.py: mode_apply in the order Python makes them along the source text -/
+def agg_mode_apply_call_order : List String := ["yield_groups", "len", "mode1"]
+
 /-- dataiter/aggregate.py: mode1 (sha256 of the function source: 1db6924678126c68) -/
 def agg_mode1 (truth : Term → Bool) : Out :=
   let eff0 : Term := (Term.app "stmt" [(Term.app "try" [(Term.app "block" [(Term.app "return" [(Term.app "statistics.mode" [(Term.sym "x")])])]), (Term.app "except" [(Term.sym "statistics.StatisticsError"), (Term.app "block" [(Term.app "return" [(Term.app "getitem" [(Term.app "getitem" [(Term.app ".most_common" [(Term.app "Counter" [(Term.sym "x")]), (Term.int (1 : Int))]), (Term.int (0 : Int))]), (Term.int (0 : Int))])])])]), (Term.app "else" [(Term.app "block" [])]), (Term.app "finally" [(Term.app "block" [])])])]);
@@ -78,6 +93,9 @@ def agg_mode1_decorators : List String := []
 
 /-- the signature of dataiter/aggregate.py: mode1: parameters in order, with the source text of their defaults -/
 def agg_mode1_signature : List String := ["x"]
+
+/-- the calls of dataiter/aggregate.py: mode1 in the order Python makes them along the source text -/
+def agg_mode1_call_order : List String := ["statistics.mode", "Counter", "Counter(x).most_common"]
 
 /-- dataiter/aggregate.py: count_unique_apply (sha256 of the function source: 514fa83708f1df5c) -/
 def agg_count_unique_apply (truth : Term → Bool) : Out :=
@@ -90,6 +108,9 @@ def agg_count_unique_apply_decorators : List String := ["deco.listify"]
 /-- the signature of dataiter/aggregate.py: count_unique_apply: parameters in order, with the source text of their defaults -/
 def agg_count_unique_apply_signature : List String := ["x", "group", "drop_na"]
 
+/-- the calls of dataiter/aggregate.py: count_unique_apply in the order Python makes them along the source text -/
+def agg_count_unique_apply_call_order : List String := ["yield_groups", "set", "len"]
+
 /-- dataiter/aggregate.py: quantile_apply (sha256 of the function source: 11777b98628a675b) -/
 def agg_quantile_apply (truth : Term → Bool) : Out :=
   let eff0 : Term := (Term.app "for" [(Term.sym "xg"), (Term.app "yield_groups" [(Term.sym "x"), (Term.sym "group"), (Term.sym "drop_na")]), (Term.app "block" [(Term.app "yield" [(Term.app "ifexp" [(Term.app "GtE" [(Term.app "len" [(Term.sym "xg")]), (Term.int (1 : Int))]), (Term.app "np.quantile" [(Term.sym "xg"), (Term.sym "q")]), (Term.sym "np.nan")])])])]);
@@ -100,6 +121,9 @@ def agg_quantile_apply_decorators : List String := ["deco.listify"]
 
 /-- the signature of dataiter/aggregate.py: quantile_apply: parameters in order, with the source text of their defaults -/
 def agg_quantile_apply_signature : List String := ["x", "group", "q", "drop_na"]
+
+/-- the calls of dataiter/aggregate.py: quantile_apply in the order Python makes them along the source text -/
+def agg_quantile_apply_call_order : List String := ["yield_groups", "len", "np.quantile"]
 
 /-- dataiter/aggregate.py: std (sha256 of the function source: d67175fb969f0bcd) -/
 def agg_std (truth : Term → Bool) : Out :=
@@ -118,6 +142,9 @@ def agg_std_decorators : List String := ["composite"]
 /-- the signature of dataiter/aggregate.py: std: parameters in order, with the source text of their defaults -/
 def agg_std_signature : List String := ["x", "*", "ddof=0", "drop_na=True"]
 
+/-- the calls of dataiter/aggregate.py: std in the order Python makes them along the source text -/
+def agg_std_call_order : List String := ["isinstance", "handle_na", "len", "np.std", "np.std(x, ddof=ddof).item"]
+
 /-- dataiter/aggregate.py: var (sha256 of the function source: 7a07f0478eb2200e) -/
 def agg_var (truth : Term → Bool) : Out :=
   if truth (Term.app "isinstance" [(Term.sym "x"), (Term.sym "str")]) then
@@ -135,6 +162,9 @@ def agg_var_decorators : List String := ["composite"]
 /-- the signature of dataiter/aggregate.py: var: parameters in order, with the source text of their defaults -/
 def agg_var_signature : List String := ["x", "*", "ddof=0", "drop_na=True"]
 
+/-- the calls of dataiter/aggregate.py: var in the order Python makes them along the source text -/
+def agg_var_call_order : List String := ["isinstance", "handle_na", "len", "np.var", "np.var(x, ddof=ddof).item"]
+
 /-- dataiter/aggregate.py: sum (sha256 of the function source: ef871117103e284f) -/
 def agg_sum (truth : Term → Bool) : Out :=
   if truth (Term.app "isinstance" [(Term.sym "x"), (Term.sym "str")]) then
@@ -151,6 +181,9 @@ def agg_sum_decorators : List String := ["composite"]
 
 /-- the signature of dataiter/aggregate.py: sum: parameters in order, with the source text of their defaults -/
 def agg_sum_signature : List String := ["x", "*", "drop_na=True"]
+
+/-- the calls of dataiter/aggregate.py: sum in the order Python makes them along the source text -/
+def agg_sum_call_order : List String := ["isinstance", "handle_na", "np.sum", "np.sum(x).item"]
 
 /-- dataiter/aggregate.py: nth (sha256 of the function source: 65ddc9ad392f098c) -/
 def agg_nth (truth : Term → Bool) : Out :=
@@ -171,6 +204,9 @@ def agg_nth_decorators : List String := ["composite"]
 /-- the signature of dataiter/aggregate.py: nth: parameters in order, with the source text of their defaults -/
 def agg_nth_signature : List String := ["x", "index", "*", "drop_na=False"]
 
+/-- the calls of dataiter/aggregate.py: nth in the order Python makes them along the source text -/
+def agg_nth_call_order : List String := ["isinstance", "handle_na", "hasattr", "value.item"]
+
 /-- dataiter/aggregate.py: median (sha256 of the function source: 7c9fed038185b5cf) -/
 def agg_median (truth : Term → Bool) : Out :=
   if truth (Term.app "isinstance" [(Term.sym "x"), (Term.sym "str")]) then
@@ -188,6 +224,9 @@ def agg_median_decorators : List String := ["composite"]
 /-- the signature of dataiter/aggregate.py: median: parameters in order, with the source text of their defaults -/
 def agg_median_signature : List String := ["x", "*", "drop_na=True"]
 
+/-- the calls of dataiter/aggregate.py: median in the order Python makes them along the source text -/
+def agg_median_call_order : List String := ["isinstance", "handle_na", "len", "np.median", "np.median(x).item"]
+
 /-- dataiter/aggregate.py: select (sha256 of the function source: 36dd4d596d309778) -/
 def agg_select (truth : Term → Bool) : Out :=
   Out.ret [] (Term.app "getitem" [(Term.sym "functions"), (Term.app "use_numba" [(Term.app "getitem" [(Term.sym "data"), (Term.sym "name")])])])
@@ -197,5 +236,8 @@ def agg_select_decorators : List String := []
 
 /-- the signature of dataiter/aggregate.py: select: parameters in order, with the source text of their defaults -/
 def agg_select_signature : List String := ["functions", "data", "name"]
+
+/-- the calls of dataiter/aggregate.py: select in the order Python makes them along the source text -/
+def agg_select_call_order : List String := ["use_numba"]
 
 end DI.Gen
